@@ -305,7 +305,8 @@ def main(ctx):
     try:
         tables, consumed = c01_tables.translate(str(lib.REPO))
         ctx.sources = {k: v for k, v in consumed.items()
-                       if any(s in k for s in ('_read_files', '_read_str_data', 'write_data', 'read_array'))}
+                       if any(s in k for s in ('_read_files', '_read_str_data', 'write_data', 'read_array',
+                                               '_generate_constraints'))}
         lib.write_if_changed(lib.COQ / 'C01' / 'gen' / 'Tables.v', c01_tables.emit(tables))
     except (c01_tables.TranslateError, SyntaxError, OSError) as e:
         tie_ok = False
@@ -453,7 +454,7 @@ def main(ctx):
                           {'group': show_impl(rg), 'expanded': show_impl(re_),
                            'errors': [rg.get('read_error'), re_.get('read_error')]},
                           'C03_group_expansion / oracle on implementation', found_input=True,
-                          signature={'oracle': 'group', 'kinds': ','.join(sorted(g['kinds']))},
+                          signature={'oracle': 'group'},
                           what='group rows and per-member rows are read differently')
     ctx.notes['search_evaluations'] = n_eval
     ctx.notes['impl_property_failures'] = impl_bad
